@@ -591,7 +591,9 @@ def spend_leaf(tree, internal, leaf, kind, privs, points, members, signers, ht=0
     tx_in = tx.tx_ins[idx]
     if kind == "multi":
         tx.initialize_p2tr_multisig(idx, cb, leaf.tap_script)
-        sigs = [tx.get_sig_taproot(idx, priv, ext_flag=1, hash_type=ht) if i in signers else b"" for i, priv in enumerate(privs)]
+        # ht may be a list: one hash type per key index (signers of one leaf need not agree on the hash type)
+        hts = ht if isinstance(ht, (list, tuple)) else [ht] * len(privs)
+        sigs = [tx.get_sig_taproot(idx, priv, ext_flag=1, hash_type=hts[i]) if i in signers else b"" for i, priv in enumerate(privs)]
         if order is not None:
             sigs = [sigs[i] for i in order]
         ok = tx.finalize_p2tr_multisig(idx, sigs)
@@ -667,6 +669,11 @@ def gen_spend_variants(tier, seed):
         for kind in ("multi", "musig"):
             for ht in (3, 0x83):
                 cases.append({"n": n, "k": k, "kind": kind, "leaf": 0, "nin": 2, "idx": 1, "nout": 1, "ht": ht, "dim": "single-no-output"})
+    # the signers of one k-of-n multisig leaf use DIFFERENT hash types (each signature is valid for its own type)
+    mixed = [(0, 1), (1, 0), (1, 0x81), (0x81, 1), (0, 0x83), (2, 3)] if quick else list(itertools.permutations(HASH_TYPES, 2))
+    for a, b in mixed:
+        cases.append({"n": 2, "k": 2, "kind": "multi", "leaf": 0, "nin": 2, "idx": 1, "nout": 2, "ht": [a, b], "dim": "mixed-hash-types"})
+        cases.append({"n": 3, "k": 2, "kind": "multi", "leaf": 0, "nin": 1, "idx": 0, "nout": 1, "ht": [a, b, a], "dim": "mixed-hash-types"})
     # every order of the list of signatures given to finalize_p2tr_multisig
     for n, k in [(2, 2), (3, 2)] if quick else [(2, 1), (2, 2), (3, 1), (3, 2), (3, 3), (4, 2)]:
         for order in itertools.permutations(range(n)):
@@ -692,8 +699,8 @@ def run_spend_variants(case):
         res.violation(f"C13/spend-variants/bijection/{kind}", vc, [x.hex() for x in keys32(leaf)], "the leaf of one k-subset", "leaf does not belong to a k-subset")
         return res
     r = attempt(spend_leaf, tree, trm.default_internal_pubkey, leaf, kind, privs, points, owner, set(owner), ht=case["ht"], nin=case["nin"], idx=case["idx"], nout=case["nout"], order=case.get("order"), salt=li)
-    what = f"{k}-of-{n} {kind} leaf {li}, hash type {case['ht']:#x}, input {case['idx']} of {case['nin']}, {case['nout']} outputs" + (f", signatures in order {case['order']}" if "order" in case else "")
-    key = (n, k, kind, li, case["ht"], case["nin"], case["idx"], case["nout"], tuple(case.get("order", ())))
+    what = f"{k}-of-{n} {kind} leaf {li}, hash type {case['ht'] if isinstance(case['ht'], list) else hex(case['ht'])}, input {case['idx']} of {case['nin']}, {case['nout']} outputs" + (f", signatures in order {case['order']}" if "order" in case else "")
+    key = (n, k, kind, li, tuple(case["ht"]) if isinstance(case["ht"], list) else case["ht"], case["nin"], case["idx"], case["nout"], tuple(case.get("order", ())))
     if dim == "single-no-output":
         judge_must_fail(res, "spend-variants", f"{kind}/{dim}", vc, r, case["idx"], what, key)
     else:
@@ -839,7 +846,7 @@ def engines(tier, seed):
         Engine("real-musig", gen_real_musig, run_real_musig, kind="E1", rule="secp256k1: key sets of size 2..3 (thorough ..5), sessions (no root, root A, root B, no root) in turn on ONE MuSigTapScript object, explicit nonces: same oracle as toy-musig; omission/alteration of each partial signature for sizes <= 3, the six further fault kinds on the second key set of each size; plus explicit boundary cases: secrets {1, 2, 3, n-2, n-1}, nonces {1, 2, n-2, n-1}, messages {00.., ff.., n, n-1}, and nonce vectors of 2 and 3 participants (thorough: 4 and 5) whose first, second or both components cancel (valid aggregate demanded unless the final nonce is infinite)"),
         Engine("timelock-trees", gen_tl_trees, run_tl_trees, kind="E1", rule="every (k, n), 1 <= n <= 4 (thorough 5), multi_leaf_tree / musig_tree generated with locktime=500 and with sequence=5: the leaves are exactly <timelock prefix> + the plain tree's leaf for every k-subset (count C(n,k), no leaf without the timelock)"),
         Engine("real-trees", gen_real_trees, run_real_trees, kind="E1", rule="every (k, n) with 1 <= n <= 4 (thorough 5), multi_leaf_tree for k >= 1 and musig_tree for k >= 2, every leaf: leaves <-> k-subsets bijection; spend by the owning subset verifies under Tx.verify_input and under the reference consensus verifier (script path, control block, CHECKSIG/CHECKSIGADD, BIP341/342 digest); spend by every other k-subset is rejected"),
-        Engine("spend-variants", gen_spend_variants, run_spend_variants, kind="E1", rule="2-of-3 multi_leaf_tree and musig_tree (thorough: every (k, n), 2 <= n <= 4, every leaf), key set rep 0: the owning subset's spend for every hash type {00, 01, 02, 03, 81, 82, 83} x (inputs, signed input, outputs) in {(1,0,1), (3,1,3)} (thorough + (2,0,2), (3,2,3)), distinct amounts per input, and the single-leaf 2-of-2 tree for every hash type: verifies under finalize_p2tr_multisig / Tx.verify_input and the reference consensus verifier; SIGHASH_SINGLE (03, 83) on input 1 of 2 with one output: accepted only if the reference accepts; every permutation of the signature list handed to finalize_p2tr_multisig for 2-of-2 and 2-of-3 (thorough: 6 trees up to 2-of-4): verifies"),
+        Engine("spend-variants", gen_spend_variants, run_spend_variants, kind="E1", rule="2-of-2 and 2-of-3 multisig leaves whose signers use DIFFERENT hash types (6 ordered pairs, thorough all 42); 2-of-3 multi_leaf_tree and musig_tree (thorough: every (k, n), 2 <= n <= 4, every leaf), key set rep 0: the owning subset's spend for every hash type {00, 01, 02, 03, 81, 82, 83} x (inputs, signed input, outputs) in {(1,0,1), (3,1,3)} (thorough + (2,0,2), (3,2,3)), distinct amounts per input, and the single-leaf 2-of-2 tree for every hash type: verifies under finalize_p2tr_multisig / Tx.verify_input and the reference consensus verifier; SIGHASH_SINGLE (03, 83) on input 1 of 2 with one output: accepted only if the reference accepts; every permutation of the signature list handed to finalize_p2tr_multisig for 2-of-2 and 2-of-3 (thorough: 6 trees up to 2-of-4): verifies"),
         Engine("composite-trees", gen_composite, run_composite, kind="E1", rule=f"every (k, n), 1 <= n <= 3 (thorough 4), generators single_leaf, degrading_multisig_tree(sequence_block_interval={DEGRADE_INTERVAL}) for k >= 1 and musig_and_single_leaf_tree, everything_tree for k >= 2, every leaf: the leaves are exactly one per subset of the sizes the generator stands for (n-key k-of-n leaf; k-subsets as multisig and/or MuSig leaves; degrading: every m-subset, 1 <= m <= k); each leaf spent by its own subset (the k-of-n single leaf: by every k-subset for single_leaf, by the first and last k-subset inside composite trees) with nSequence = the leaf's own CSV operand if it has one verifies under the library and the reference consensus verifier; a CSV leaf spent with nSequence one lower: accepted only if the reference accepts"),
         Engine("tree-parity-walk", gen_parity_walk, run_parity_walk, kind="E1", rule=f"every (k, n), 1 <= n <= 3 (thorough 5), multi_leaf_tree and (k >= 2) musig_tree: key sets rep = 0, 1, .. (fixed functions of n and rep, independent of the seed; at most {WALK_CAP}, a cap would be reported) until both parities of the output key (control-block parity bit, by the reference tweak) and both parities of the internal key have occurred; every rep >= 1 showing a new parity: leaf (rep mod #leaves) spent by its own subset verifies under the library and the reference (rep 0 is the key set real-trees spends)"),
     ]
